@@ -29,63 +29,60 @@ impl Ipv6Address {
         )
     }
 
-    /// Create an IPv6 address from a string that uses zero compression
+    /// Create an IPv6 address from its RFC 4291 hexadecimal text form:
+    /// eight groups of one to four hex digits separated by colons, where
+    /// one run of zero groups may be written as "::" (also at the very
+    /// beginning or end, "::" alone being the unspecified address).
     pub fn from_str(s: &str) -> Result<Self, &'static str> {
-        // Split the string by colons to get each segment
-        let segments: Vec<&str> = s.split(':').collect();
+        const ERR: &str = "Invalid IPv6 address format";
 
-        // Ensure we have at most 8 segments for a valid IPv6 address
-        if segments.len() > 8 {
-            return Err("Invalid IPv6 address format");
+        fn parse_groups(part: &str) -> Result<Vec<u16>, &'static str> {
+            if part.is_empty() {
+                return Ok(Vec::new());
+            }
+            let mut groups = Vec::new();
+            for segment in part.split(':') {
+                if segment.is_empty()
+                    || segment.len() > 4
+                    || !segment.chars().all(|c| c.is_ascii_hexdigit())
+                {
+                    return Err("Invalid segment in IPv6 address");
+                }
+                match u16::from_str_radix(segment, 16) {
+                    Ok(value) => groups.push(value),
+                    Err(_) => return Err("Invalid segment in IPv6 address"),
+                }
+            }
+            Ok(groups)
         }
+
+        // Split at the zero compression, of which there may be one only
+        let (head, tail, compressed) = match s.find("::") {
+            Some(pos) => {
+                let rest = &s[pos + 2..];
+                if rest.contains("::") {
+                    return Err(ERR);
+                }
+                (&s[..pos], rest, true)
+            }
+            None => (s, "", false),
+        };
+        let head = parse_groups(head)?;
+        let tail = parse_groups(tail)?;
 
         let mut parts = [0u16; 8];
-        let mut part_index = 0; // Index to fill in the parts array
-
-        // Flags to handle zero compression
-        let mut compressed = false;
-        let mut compression_index = 0; // Index where compression starts
-
-        for (i, &segment) in segments.iter().enumerate() {
-            if segment.is_empty() {
-                if compressed {
-                    return Err("Invalid IPv6 address format");
-                }
-                compressed = true;
-                compression_index = i;
-                continue;
-            }
-
-            if part_index >= 8 {
-                return Err("Invalid IPv6 address format");
-            }
-
-            // Convert segment to u16 value
-            match u16::from_str_radix(segment, 16) {
-                Ok(value) => parts[part_index] = value,
-                Err(_) => return Err("Invalid segment in IPv6 address"),
-            }
-
-            part_index += 1;
-        }
-
-        // Handle zero compression
         if compressed {
-            // Calculate the number of segments we need to shift
-            let shift = 8 - part_index;
-
-            // Shift parts to make room for the compressed segments
-            for i in (compression_index + shift..8).rev() {
-                parts[i] = parts[i - shift];
+            // "::" stands for at least one group of zeros
+            if head.len() + tail.len() > 7 {
+                return Err(ERR);
             }
-
-            // Fill in the compressed segments with zeros
-            for part in parts.iter_mut().skip(compression_index).take(shift) {
-                *part = 0;
+            parts[..head.len()].copy_from_slice(&head);
+            parts[8 - tail.len()..].copy_from_slice(&tail);
+        } else {
+            if head.len() != 8 {
+                return Err(ERR);
             }
-        } else if part_index != 8 {
-            // If no compression, ensure we have exactly 8 parts
-            return Err("Invalid IPv6 address format");
+            parts.copy_from_slice(&head);
         }
 
         Ok(Self(
